@@ -38,7 +38,7 @@ pub fn fault_case_strategy(thorough: bool) -> BoxedStrategy<Case> {
                     "change_priority" | "change_priority_by" | "remove" | "pop" | "pop_if" => 8,
                     "push_increase" | "push_decrease" => 4,
                     "retain" | "retain_mut" | "extend" | "append" | "from_iter" | "from_vec" | "iter_mut" => 4,
-                    "clone" => 6,
+                    "clone" => 10,
                     "adaptor" | "eq" | "sorted" | "reserve" | "shrink_to_fit" | "get" | "get_mut" | "peek_mut" | "into_vec" | "iter" => 1,
                     _ => w.min(2),
                 },
@@ -51,20 +51,22 @@ pub fn fault_case_strategy(thorough: bool) -> BoxedStrategy<Case> {
     (kinds, hashers, proptest::sample::select(vec![4u32, 12, 64]), 0u8..4)
         .prop_flat_map(move |(kind, hasher, u, dom)| {
             let op = gen::op_strategy(&p, kind, u, dom);
-            let fk = prop_oneof![
-                8 => Just(FaultKind::Cmp),
-                2 => Just(FaultKind::Hash),
-                2 => Just(FaultKind::Eq),
-                1 => Just(FaultKind::CloneKey),
-                1 => Just(FaultKind::ClonePrio),
-                3 => Just(FaultKind::Callback),
-                2 => Just(FaultKind::Feed),
-            ];
             let kk = if sweep { prop_oneof![3 => any::<u16>(), 1 => Just(u16::MAX)].boxed() } else { (0u16..u16::MAX).boxed() };
-            let step = prop_oneof![
-                3 => op.clone(),
-                2 => (fk, kk, op.clone()).prop_map(|(kind, k, op)| Op::WithFault { kind, k, op: Box::new(op) }),
-            ];
+            // the fault kind is drawn to fit the operation (the runner falls back to a kind the
+            // operation does call if this one never ticks)
+            let faulty = (op.clone(), kk, any::<u8>()).prop_map(|(op, k, r)| {
+                let pick = |v: &[FaultKind]| v[r as usize % v.len()];
+                let kind = match &op {
+                    Op::CloneReplace | Op::Snapshot | Op::RestoreFrom | Op::EqProbe | Op::Sorted { .. } | Op::Adapt { .. } => pick(&[FaultKind::CloneKey, FaultKind::ClonePrio, FaultKind::CloneKey, FaultKind::Cmp]),
+                    Op::Extend { .. } | Op::RebuildFromIter { .. } | Op::RebuildFromVec { .. } | Op::Append { .. } => {
+                        pick(&[FaultKind::Feed, FaultKind::Hash, FaultKind::Eq, FaultKind::Cmp, FaultKind::Cmp, FaultKind::Feed])
+                    }
+                    Op::Retain { .. } | Op::RetainMut { .. } | Op::PopIf { .. } | Op::ChangeBy { .. } => pick(&[FaultKind::Callback, FaultKind::Callback, FaultKind::Cmp, FaultKind::Hash]),
+                    _ => pick(&[FaultKind::Cmp, FaultKind::Cmp, FaultKind::Cmp, FaultKind::Hash, FaultKind::Eq, FaultKind::Cmp, FaultKind::Callback]),
+                };
+                Op::WithFault { kind, k, op: Box::new(op) }
+            });
+            let step = prop_oneof![3 => op.clone(), 2 => faulty];
             (Just(kind), Just(hasher), Just(u), gen::ctor_strategy(&p, u, dom), vec(step, 1..p.max_ops))
         })
         .prop_map(|(kind, hasher, universe, ctor, ops)| Case { kind, hasher, universe, ctor, ops, faults: vec![], drain_every: 1, drain_bits: 0 })
